@@ -148,20 +148,25 @@ class MDOChain(ProcessDiscipline):
         # The graph traversal algorithm avoid to compute unnecessary Jacobians
         discipline.linearize(last_cached, execute=False, compute_all_jacobians=False)
 
+        # The names defined by the discipline:
+        # the disciplines executed after it read what it wrote under these names,
+        # whatever an earlier discipline or the chain inputs provide under the same names.
+        defined_names = set(discipline.io.output_grammar)
+
         for output_name in chain_outputs:
             if output_name in self.jac:
                 # This output has already been taken from previous disciplines
                 # Derivatives must be composed using the chain rule
+                output_jacobian = self.jac[output_name]
 
-                # Make a copy of the keys because the dict is changed in the
-                # loop
-                common_inputs = sorted(
-                    set(self.jac[output_name].keys()).intersection(discipline.jac)
-                )
-                for input_name in common_inputs:
-                    # Store reference to the current Jacobian
-                    curr_jac = self.jac[output_name][input_name]
-                    for new_in, new_jac in discipline.jac[input_name].items():
+                # Detach the derivatives wrt the names defined by the discipline:
+                # they are replaced by derivatives wrt the inputs of the discipline.
+                composed_jacobians = {
+                    input_name: output_jacobian.pop(input_name)
+                    for input_name in sorted(defined_names.intersection(output_jacobian))
+                }
+                for input_name, curr_jac in composed_jacobians.items():
+                    for new_in, new_jac in discipline.jac.get(input_name, {}).items():
                         # Chain rule the derivatives
                         # TODO: sum BEFORE dot
                         if isinstance(new_jac, JacobianOperator):
@@ -171,34 +176,36 @@ class MDOChain(ProcessDiscipline):
                         else:
                             loc_dot = curr_jac @ new_jac
 
-                        # when input_name==new_in, we are in the case of an
-                        # input being also an output
-                        # in this case we must only compose the derivatives
-                        if new_in in self.jac[output_name] and input_name != new_in:
+                        if new_in in output_jacobian:
                             # The output is already linearized wrt this
                             # input_name. We are in the case:
                             # d o     d o    d o     di_2
                             # ----  = ---- + ----- . -----
                             # d z     d z    d i_2    d z
                             if isinstance(loc_dot, JacobianOperator):
-                                self.jac[output_name][new_in] = (
-                                    loc_dot + self.jac[output_name][new_in]
+                                output_jacobian[new_in] = (
+                                    loc_dot + output_jacobian[new_in]
                                 )
                             else:
-                                self.jac[output_name][new_in] += loc_dot
+                                output_jacobian[new_in] += loc_dot
                         else:
                             # The output is not yet linearized wrt this
                             # input_name.  We are in the case:
                             #  d o      d o     di_1   d o     di_2
                             # -----  = ------ . ---- + ----  . ----
                             #  d x      d i_1   d x    d i_2    d x
-                            self.jac[output_name][new_in] = loc_dot
+                            output_jacobian[new_in] = loc_dot
 
-            elif output_name in discipline.jac:
+            elif output_name in defined_names:
                 # Output of the chain not yet filled in jac,
                 # Take the jacobian dict of the current discipline to
                 # Initialize. Make a copy !
-                self.jac[output_name] = MDOChain.copy_jacs(discipline.jac[output_name])
+                # The row is empty when the discipline is not differentiated:
+                # the output does not depend on the differentiated inputs,
+                # even though an earlier discipline defines the same name.
+                self.jac[output_name] = MDOChain.copy_jacs({
+                    output_name: discipline.jac.get(output_name, {})
+                })[output_name]
 
     def _compute_diff_in_outs(
         self,
@@ -231,6 +238,10 @@ class MDOChain(ProcessDiscipline):
         # The graph traversal algorithm avoid to compute unnecessary Jacobians
         last_discipline.linearize(last_cached, execute=False)
         self.jac = self.copy_jacs(last_discipline.jac)
+        for output_name in set(output_names).intersection(
+            last_discipline.io.output_grammar
+        ):
+            self.jac.setdefault(output_name, {})
 
         # reverse mode of remaining disciplines
         remaining_disciplines = self.disciplines[:-1]
